@@ -598,6 +598,12 @@ def run(ctx):
                             f.cls is not None and n.attr in
                             {a for a in attrs_stored_by(f.cls)}):
                     bad.append("%s assigns .%s" % (f.short, n.attr))
+        # what the class inherits from the builtins must be immutable too
+        MUTABLE_BUILTINS = {"list", "dict", "set", "bytearray", "UserList",
+                            "UserDict", "deque", "array"}
+        for b in c.builtin_bases():
+            if b.split(".")[-1] in MUTABLE_BUILTINS:
+                bad.append("inherits the in-place methods of %s" % b)
         ok = not bad
         ctx.oblige(ok)
         if not ok:
